@@ -306,17 +306,7 @@ func runC20(c *Ctx) {
 	// R3: the only serialiser is Token.String (or raw data under allowUnsafe, or a space): its escaping is the inverse of the
 	// tokenizer's unescaping — the round-trip assumption of this property; any other escaper (a Replacer, a hand-written
 	// loop, EscapeString on a part of the token) is outside that assumption
-	if s3, err := model.FindSan(c.P); err != nil {
-		R.Unknown("C20.R3", "sanitize", "(*Policy).sanitize", "", err.Error())
-	} else {
-		n3 := 0
-		for i, w := range s3.Writes {
-			n3++
-			okW := w.Payload == "TokenString" || w.Payload == "Space" || w.Payload == "RawData" || w.Payload == "Mixed"
-			R.Check(okW, "C20.R3", writeKey(s3, i), writeDescr(w), c.P.Pos(w.Call.Pos()), "written through Token.String (or a space, or raw data)", "a token is serialised by something other than Token.String ("+w.Detail+"): what the next pass reads back is no longer guaranteed to be what this pass wrote (characters the tokenizer normalises — CR, NUL — or entity forms can differ)")
-		}
-		R.Role("C20.R3", "destination writes in sanitize", n3, 6)
-	}
+	singleSerialiser(c, "C20.R3", "what the next pass reads back is no longer guaranteed to be what this pass wrote (characters the tokenizer normalises — CR, NUL — or entity forms can differ)")
 }
 
 func isConstStr(v ssa.Value) bool { _, ok := constString(v); return ok }
